@@ -985,3 +985,28 @@ LEVEL_TEXT = ("Mixed. Proved (E1-term, Choi-matrix branch, over callee contracts
               "constructed ground truth, every built-in channel formula and the tolerance semantics are bounded run-time contract checks.")
 EXPLANATION = LEVEL_TEXT
 TECHNIQUE = "formula contracts over callee contracts (E1-term, z3) for the predicate plumbing + bounded run-time-checked contracts with ground truth by construction"
+
+
+# =============================================================================================
+# frame coverage shared by all properties (E2 obligations for every public function of the anchor files + run-time frame cases)
+# =============================================================================================
+from props import frame_all as _fa  # noqa: E402
+from props.frame_common import frame_generic as _fg, frame_object as _fo  # noqa: E402
+
+CLAUSES.setdefault("frame.generic", _fg)
+CLAUSES.setdefault("frame.object", _fo)
+_cases_before_frames = cases
+_prove_before_frames = globals().get("prove")
+
+
+def cases(tier, seed):  # noqa: F811
+    return _cases_before_frames(tier, seed) + _fa.frame_cases(ID, seed)
+
+
+def prove(tier, seed):  # noqa: F811
+    from vt.pyvc.termproofs import merge
+
+    b = _fa.prove_frames(ID, lambda s: _fa.frame_cases(ID, s))(tier, seed)
+    if _prove_before_frames is None:
+        return b
+    return merge(_prove_before_frames(tier, seed), b)
